@@ -159,6 +159,30 @@ CLAIMED = {
          "DESIGN.md §4 (C18)"),
 }
 
+# additions of later sessions: id -> (appended to the level text, appended to the level note)
+ADDED = {
+ "C01": (" Later additions: the top-level outputs of nested mapped calls, with the outer collection literal (H_C01_nested) or known only at run time incl. empty inner arrays (H_C01_dynamicNested: 0..2 / 0..3 elements per inner array), a struct member projected through CELL[][], map<CELL[]>, map<CELL>[] (H_C01_projectNested), and the 'undeclared fields dropped' clause through a typed map with mixed entries (H_C17_mapKeys).",
+         " Fixed defects found by these harnesses: 2-D merge rejected, nested merge collecting the wrong forks (known_findings.json)."),
+ "C02": (" The real-graph fixture also has a sub-pipeline disabled by another call's output, containing a stage that does not otherwise depend on that call.", ""),
+ "C03": (" H_C03_disableSiblings: two sibling calls sharing the slice of inherited disabling conditions (0..4 (6) levels, spare capacity) keep their own conditions.", ""),
+ "C04": (" H_C04_dynamicForks: forks created at run time (expandForks / cloneFork) keep the top-level / retain holds; H_C04_projectedHolds: files reached through a projection (typed map, array, struct, array of typed maps; 1..2 (3) arbitrary letter keys) stay attributed to the consumer's argument after the real removeEmptyFileArgs / cacheParamFileMap.", ""),
+ "C05": (" Bounded resumed runs (H_C05_crashRun): a pipeline with a preflight, a chain through a splitting stage (2 chunks) and an independent stage is instantiated twice; the first object is run by the real StepNodes and killed after 0..7 (9) rounds with every job in flight at arbitrary progress; its metadata caches become an explicit disk; the second object is attached to it as mrp does (chunks rebuilt by updateId, RestoreForks, RestartRunningNodes, Reset, RestartLocalJobs, LoadMetadata, run loop), in local and in cluster mode: no recorded completion is executed again, a surviving cluster job is not resubmitted, every other job runs exactly once, the pipestance ends complete. H_C05_chunkIdentity (1..12 / 1..101 chunks) and H_C05_restoredForks (run-time typed-map forks rebuilt by RestoreForks).",
+         " The crash model: a kill between two run-loop rounds (not between two file writes of mrp itself); expandForks is stubbed in the run harness."),
+ "C06": (" H_C06_chunkOutputs: the real Chunk.verifyOutput on six kinds of chunk _outs at three enforcement levels (a rejected chunk never lets the join start); H_C05_chunkIdentity for the 'restarting re-executes only the failed work' clause.", ""),
+ "C07": (" Further enumerated shapes: map call over 11 collection types x 8 parameter types (element type rule), pairs of split arguments (array versus map), projections through arrays / typed maps / arrays of typed maps, 16 literals, missing / unknown parameters and non-existent outputs, pipeline input -> stage input, stage output -> pipeline output, sub-pipeline output -> stage input; a member projected through nested collections resolves at run time (H_C01_projectNested).",
+         " The shape quantifier is enumerated (about 1600 compiles per run), delivered values are symbolic."),
+ "C08": (" H_C09_topoSort runs under a declared step bound (verifStepLimit): a compile that does not terminate promptly is a fatal outcome, not a budget.", ""),
+ "C09": (" One comment (0..1 (2) arbitrary printable bytes) at each of 20 places of a program and before every element of an array / map / struct literal (directly or followed by an empty line): never lost; in the places the property lists kept once and a fixed point.", ""),
+ "C10": (" H_C10_nestedForkIds: static expansion of nested map calls whose inner key set depends on the outer fork, under arbitrary iteration order of every map touched; the self-compile fixtures include a dependency cycle and a program with several independent errors (error text compared under two map orders).", ""),
+ "C12": (" The Enqueue harness also runs with the address-space limit below the memory limit.", ""),
+ "C13": (" Further leaf kinds: a file in a sub-directory and a relative link to an earlier output's file (a chain of relative links through directories of different depth); H_C13_outNames: two outputs of a struct / stage / pipeline deriving the same path under outs/ are a compile error (8 pairs x 3 scopes).", ""),
+ "C14": (" H_C14_killTwice: two strict-mode passes of the real vdrKillSome with removeFilePostNodes in between: the cumulative report counts every reclaimed path once.", ""),
+ "C15": (" Whole programs compiled from text: 17 x 17 parameter types passed between two stages (Ast.EquivalentCall accepts exactly when equal up to file-type names) and 8 variants of a struct definition under the same name.", ""),
+ "C16": (" Mapped arguments of 9 parameter shapes over an array or a map of values (compile against the stage, same values back); a struct argument whose members are a struct, a typed map of structs, an array of structs, a typed map and an untyped map, raw or decoded (the per-fork invocation); JSON string escapes: \\uXXXX with four symbolic hex digits, arbitrary surrogate pairs, the two-character escapes.", ""),
+ "C17": (" H_C17_mapKeys: typed map of structs with 1..2 keys of 1 (2) arbitrary ASCII bytes incl. control characters (escape-aware reference decoder that rejects raw control characters), mixed null / extra-field / plain values; H_C17_intLiterals: a concrete table of 28 number literals around 2^53 and 2^63 filtered to int (replayed natively against the real encoding/json).", ""),
+ "C19": (" H_C19_edits: 14 operations (remove input; rename input / output of a stage, a sub-pipeline, the top-level pipeline; rename stage / pipeline) x 16 program variants, Refactor -> apply to a fresh parse -> format -> recompile -> compare resolved call graphs modulo the renamed identifier / removed input; H_C19_editPairs: two renames in one request, both orders.", ""),
+}
+
 NOT_APPLICABLE = {
 }
 
@@ -172,6 +196,9 @@ def main():
     checks = []
     for pid in sorted(CLAIMED):
         text, note, ref = CLAIMED[pid]
+        if pid in ADDED:
+            text += ADDED[pid][0]
+            note += ADDED[pid][1]
         checks.append({
             "property_id": pid,
             "quick_cmd": "./vcheck %s quick" % pid,
